@@ -287,6 +287,12 @@ class HttpProxyPlugin(HttpProtocolHandlerPlugin):
                     else:
                         self.response.parse(raw)
                         self.emit_response_events(len(raw))
+                        # Bytes following a complete response belong
+                        # to the next (pipelined) response
+                        if self.response.is_complete and self.response.buffer:
+                            remainder = self.response.buffer
+                            self.response.buffer = None
+                            self.handle_pipeline_response(remainder)
                 else:
                     self.response.total_size += len(raw)
                 # queue raw data for client
@@ -555,12 +561,17 @@ class HttpProxyPlugin(HttpProtocolHandlerPlugin):
         return False
 
     def handle_pipeline_response(self, raw: memoryview) -> None:
-        if self.pipeline_response is None:
-            self.pipeline_response = HttpParser(
-                httpParserTypes.RESPONSE_PARSER,
-            )
-        self.pipeline_response.parse(raw)
-        if self.pipeline_response.is_complete:
+        while len(raw) > 0:
+            if self.pipeline_response is None:
+                self.pipeline_response = HttpParser(
+                    httpParserTypes.RESPONSE_PARSER,
+                )
+            self.pipeline_response.parse(raw)
+            if not self.pipeline_response.is_complete:
+                break
+            # Bytes following a complete response belong
+            # to the next (pipelined) response
+            raw = self.pipeline_response.buffer or memoryview(b'')
             self.pipeline_response = None
 
     def connect_upstream(self) -> None:
